@@ -27,7 +27,7 @@ func init() {
 			fs.Enum("cmp", "unknown", path)
 			fs.OptNat("wRealm", 0, false, path)
 			fs.OptNat("wSwamp", 0, false, path)
-			for _, n := range []string{"persistsInMem", "persistsIdle", "persistsWi", "persistsSize", "unchangedChecksType", "saveAtomic"} {
+			for _, n := range []string{"persistsInMem", "persistsIdle", "persistsWi", "persistsSize", "unchangedChecksType", "saveAtomic", "unchangedChecksDisk"} {
 				fs.Tri(n, Unknown, path)
 			}
 		}
@@ -422,6 +422,17 @@ func c21Unchanged(fs *Facts, f *File, path string) {
 		return
 	}
 	fs.Tri("unchangedChecksType", TriOf(strings.Contains(cond, "s.patterns[pattern.Get()].GetSwampType() == setting.PermanentSwamp &&")), path+":"+itoa(f.Line(inner)))
+	// is the early return taken only while the file is up to date?  `!s.unsaved.Load() &&` must be a conjunct and
+	// SaveSettingsToFilesystem must record its outcome: `defer func() { s.unsaved.Store(err != nil) }()`
+	disk := No
+	if strings.Contains(cond, "!s.unsaved.Load() &&") {
+		disk = Unknown
+		if sv := f.Func("settings", "SaveSettingsToFilesystem"); sv != nil && f.Contains(sv, "defer func() { s.unsaved.Store(err != nil) }()") &&
+			sv.Type.Results != nil && len(sv.Type.Results.List) == 1 && len(sv.Type.Results.List[0].Names) == 1 && sv.Type.Results.List[0].Names[0].Name == "err" {
+			disk = Yes
+		}
+	}
+	fs.Tri("unchangedChecksDisk", disk, path+":"+itoa(f.Line(inner)))
 }
 
 // c21SaveAtomic: SaveSettingsToFilesystem.
